@@ -6,6 +6,8 @@ import Mathlib.Algebra.Order.Field.Basic
 import Mathlib.Tactic.Ring
 import Mathlib.Tactic.FieldSimp
 import Mathlib.Tactic.Linarith
+import Mathlib.Algebra.BigOperators.Field
+import Mathlib.Analysis.SpecialFunctions.Log.Basic
 /-!
   C11 (ADEV estimators), C15 (deterministic code = forward-mode AD), C17 (ELBO / optimiser).
 -/
@@ -19,26 +21,51 @@ variable {K : Type} [Field K]
 theorem flipEnum_exact (p kT kF : Dual K) :
     (flipEnum p kT kF).v = Eflip p.v kT.v kF.v ∧
     (flipEnum p kT kF).d = p.d * (kT.v - kF.v) + p.v * kT.d + (1 - p.v) * kF.d := by
-  sorry
+  constructor
+  · simp only [flipEnum, Eflip, Dual.add, Dual.mul, Dual.sub, Dual.const]
+  · simp only [flipEnum, Dual.add, Dual.mul, Dual.sub, Dual.const]
+    ring
 
 /-- REINFORCE on a flip is unbiased: averaging the estimate over the two outcomes gives exactly the
     value and tangent of flip_enum (requires 0 < p < 1, i.e. both outcome probabilities non-zero) -/
 theorem reinforce_flip_unbiased (p kT kF : Dual K) (h1 : p.v ≠ 0) (h2 : 1 - p.v ≠ 0) :
     Eflip p.v (reinforce (flipProb p true) kT).v (reinforce (flipProb p false) kF).v = (flipEnum p kT kF).v ∧
     Eflip p.v (reinforce (flipProb p true) kT).d (reinforce (flipProb p false) kF).d = (flipEnum p kT kF).d := by
-  sorry
+  constructor
+  · simp only [flipEnum, Eflip, Dual.add, Dual.mul, Dual.sub, Dual.const, reinforce]
+  · simp only [flipEnum, Eflip, Dual.add, Dual.mul, Dual.sub, Dual.const, reinforce, flipProb, if_true,
+      Bool.false_eq_true, if_false]
+    field_simp
+    ring
 
 /-- the measure-valued flip estimator is unbiased (for every p, also at the boundary) -/
 theorem mvd_flip_unbiased (p kT kF : Dual K) :
     Eflip p.v (mvd true p kT kF).v (mvd false p kT kF).v = (flipEnum p kT kF).v ∧
     Eflip p.v (mvd true p kT kF).d (mvd false p kT kF).d = (flipEnum p kT kF).d := by
-  sorry
+  constructor
+  · simp only [flipEnum, Eflip, Dual.add, Dual.mul, Dual.sub, Dual.const, mvd, if_true,
+      Bool.false_eq_true, if_false]
+  · simp only [flipEnum, Eflip, Dual.add, Dual.mul, Dual.sub, Dual.const, mvd, if_true,
+      Bool.false_eq_true, if_false]
+    ring
 
 /-- REINFORCE over any finite distribution: Σ_i p_i·(k_i' + k_i·p_i'/p_i) = (Σ_i p_i k_i)' -/
 theorem reinforce_finite_unbiased (ps ks : List (Dual K)) (hl : ps.length = ks.length)
     (hp : ∀ p ∈ ps, p.v ≠ 0) :
     reinforceExpectedTangent ps ks = (enumAll ps ks).d := by
-  sorry
+  induction ps generalizing ks with
+  | nil => simp [reinforceExpectedTangent, enumAll, sumK, sumD]
+  | cons p ps ih =>
+    cases ks with
+    | nil => simp at hl
+    | cons k ks =>
+      have hp0 : p.v ≠ 0 := hp p (by simp)
+      have ih' := ih ks (by simpa using hl) (fun q hq => hp q (by simp [hq]))
+      simp only [reinforceExpectedTangent, enumAll] at ih' ⊢
+      simp only [List.zipWith_cons_cons, sumK, sumD, Dual.add, ih']
+      simp only [reinforce, Dual.mul]
+      field_simp
+      ring
 
 /-- every estimator is affine in the continuation's Dual, so an unbiased inner estimate may be
     replaced by its expectation (tower property; this is what makes compositions of different
@@ -46,13 +73,14 @@ theorem reinforce_finite_unbiased (ps ks : List (Dual K)) (hl : ps.length = ks.l
 theorem reinforce_affine (pb k1 k2 : Dual K) (w : K) :
     (reinforce pb ⟨w * k1.v + (1 - w) * k2.v, w * k1.d + (1 - w) * k2.d⟩).d =
       w * (reinforce pb k1).d + (1 - w) * (reinforce pb k2).d := by
-  sorry
+  simp only [reinforce]
+  ring
 
 theorem mvd_affine (b : Bool) (p kT1 kT2 kF1 kF2 : Dual K) (w : K) :
     (mvd b p ⟨w * kT1.v + (1 - w) * kT2.v, w * kT1.d + (1 - w) * kT2.d⟩
              ⟨w * kF1.v + (1 - w) * kF2.v, w * kF1.d + (1 - w) * kF2.d⟩).d =
       w * (mvd b p kT1 kF1).d + (1 - w) * (mvd b p kT2 kF2).d := by
-  sorry
+  cases b <;> simp only [mvd, if_true, Bool.false_eq_true, if_false] <;> ring
 
 /-- two composed sites with DIFFERENT estimators (outer REINFORCE flip with parameter p, inner MVD
     flip with parameter q, arbitrary continuation values k b1 b2): the estimate averaged over all
@@ -65,28 +93,37 @@ theorem compose_reinforce_mvd_unbiased (p q : Dual K) (k : Bool → Bool → Dua
               (Eflip q.v (outer false true).d (outer false false).d)
       = (flipEnum p (flipEnum q (k true true) (k true false))
                     (flipEnum q (k false true) (k false false))).d := by
-  sorry
+  simp only [flipEnum, Eflip, Dual.add, Dual.mul, Dual.sub, Dual.const, reinforce, flipProb, mvd, if_true,
+    Bool.false_eq_true, if_false]
+  field_simp
+  ring
 
 end Field
 
 section Det
 variable {K : Type} [Field K] [LinearOrder K]
 
+theorem adev_det_kont_aux (kont : Dual K → Dual K) (es : List (Eqn K)) (env : List (Dual K)) :
+    adevEval kont es env = kont (jvpEval es env) := by
+  induction es generalizing env with
+  | nil => simp only [adevEval, jvpEval]
+  | cons e es ih => simp only [adevEval, jvpEval, ih]
+
 /-- C15: on code without random choices the ADEV interpreter with the identity continuation is
     ordinary forward-mode AD, for every program and every environment of input duals -/
 theorem adev_det_eq_jvp (es : List (Eqn K)) (env : List (Dual K)) :
     adevEval id es env = jvpEval es env := by
-  sorry
+  exact adev_det_kont_aux id es env
 
 /-- … and with an arbitrary final continuation it is that continuation applied to the JVP result -/
 theorem adev_det_kont (kont : Dual K → Dual K) (es : List (Eqn K)) (env : List (Dual K)) :
     adevEval kont es env = kont (jvpEval es env) := by
-  sorry
+  exact adev_det_kont_aux kont es env
 
 /-- the Dual arithmetic implements the sum and product rules -/
 theorem dual_rules (a b : Dual K) :
     (Dual.add a b).d = a.d + b.d ∧ (Dual.mul a b).d = a.d * b.v + a.v * b.d ∧ (Dual.neg a).d = -a.d := by
-  sorry
+  exact ⟨rfl, rfl, rfl⟩
 
 end Det
 
@@ -95,20 +132,88 @@ end Genjax.Adev
 namespace Genjax.Vi
 variable {K : Type} [Field K]
 
+theorem optimize_length (grad : Nat → K → K) (lr : K) (n i : Nat) (p : K) :
+    (optimize grad lr n i p).length = n := by
+  induction n generalizing i p with
+  | zero => simp only [optimize, List.length_nil]
+  | succ n ih => simp only [optimize, List.length_cons, ih]
+
+/-- peel the FIRST step off `iter` (which is defined by peeling the last one) -/
+theorem iter_succ_front (g : Nat → K → K) (lr : K) (j : Nat) (p : K) :
+    iter g lr (j + 1) p = iter (fun k => g (k + 1)) lr j (p + lr * g 0 p) := by
+  induction j with
+  | zero => simp only [iter]
+  | succ j ih =>
+    have : iter g lr (j + 1 + 1) p = iter g lr (j + 1) p + lr * g (j + 1) (iter g lr (j + 1) p) := rfl
+    rw [this, ih]
+    rfl
+
+theorem optimize_getD (grad : Nat → K → K) (lr : K) (d : K) (n i : Nat) (p : K) (j : Nat) (hj : j < n) :
+    (optimize grad lr n i p).getD j d = iter (fun k => grad (i + k)) lr (j + 1) p := by
+  induction n generalizing i p j with
+  | zero => omega
+  | succ n ih =>
+    cases j with
+    | zero => simp only [optimize, List.getD_cons_zero, iter, Nat.add_zero]
+    | succ j =>
+      simp only [optimize, List.getD_cons_succ]
+      rw [ih (i + 1) _ j (by omega), iter_succ_front (fun k => grad (i + k)) lr (j + 1) p]
+      have : (fun k => grad (i + 1 + k)) = (fun k => grad (i + (k + 1))) := by
+        funext k; congr 1; omega
+      rw [this]
+      rfl
+
 /-- the optimiser returns every iterate: `n` of them, the i-th being params after i+1 ascent steps -/
 theorem optimize_history (grad : Nat → K → K) (lr : K) (n : Nat) (p0 : K) :
     (optimize grad lr n 0 p0).length = n ∧
     ∀ i, i < n → (optimize grad lr n 0 p0).getD i p0 = iter grad lr (i + 1) p0 := by
-  sorry
+  refine ⟨optimize_length grad lr n 0 p0, fun i hi => ?_⟩
+  have h := optimize_getD grad lr p0 n 0 p0 i hi
+  simpa only [Nat.zero_add] using h
 
 /-- each step applies params + learning_rate · gradient -/
 theorem iter_step (grad : Nat → K → K) (lr : K) (n : Nat) (p0 : K) :
     iter grad lr (n + 1) p0 = iter grad lr n p0 + lr * grad n (iter grad lr n p0) := by
-  sorry
+  rfl
 
 /-- ELBO is tight at the exact posterior (linear domain): if q(z) = p(x,z)/p(x) then the importance
     ratio p(x,z)/q(z) equals p(x) for every z in the support, i.e. log p(x,z) − log q(z) = log p(x) -/
 theorem elbo_tight (pxz px : K) (hz : pxz ≠ 0) (hx : px ≠ 0) : pxz / (pxz / px) = px := by
-  sorry
+  field_simp
 
+/-- ELBO ≤ log evidence (Gibbs' inequality, log domain over ℝ): for a variational family q on a finite
+    support `s` (q_i > 0, Σ q_i = 1) and unnormalised joint weights p_i = p(x, z_i) > 0,
+    E_q[log p(x,z) − log q(z)] = Σ_i q_i · log (p_i / q_i) ≤ log Σ_i p_i = log p(x).
+    Proof: log t ≤ t − 1 at t = p_i / (Z q_i). -/
+theorem elbo_le_evidence {ι : Type*} (s : Finset ι) (q p : ι → ℝ)
+    (hq : ∀ i ∈ s, 0 < q i) (hp : ∀ i ∈ s, 0 < p i) (hsum : ∑ i ∈ s, q i = 1) :
+    ∑ i ∈ s, q i * Real.log (p i / q i) ≤ Real.log (∑ i ∈ s, p i) := by
+  have hne : s.Nonempty := by
+    rcases s.eq_empty_or_nonempty with h | h
+    · subst h; simp at hsum
+    · exact h
+  have hZ : 0 < ∑ i ∈ s, p i := Finset.sum_pos hp hne
+  set Z := ∑ i ∈ s, p i with hZdef
+  have hterm : ∀ i ∈ s, q i * Real.log (p i / q i) ≤ (p i / Z - q i) + q i * Real.log Z := by
+    intro i hi
+    have hqi := hq i hi
+    have hpi := hp i hi
+    have hpos : 0 < p i / (Z * q i) := div_pos hpi (mul_pos hZ hqi)
+    have h1 := Real.log_le_sub_one_of_pos hpos
+    have h2 : Real.log (p i / q i) = Real.log (p i / (Z * q i)) + Real.log Z := by
+      rw [← Real.log_mul hpos.ne' hZ.ne']
+      congr 1
+      field_simp
+    rw [h2, mul_add]
+    have h3 : q i * Real.log (p i / (Z * q i)) ≤ q i * (p i / (Z * q i) - 1) :=
+      mul_le_mul_of_nonneg_left h1 hqi.le
+    have h4 : q i * (p i / (Z * q i) - 1) = p i / Z - q i := by
+      field_simp
+    linarith
+  calc ∑ i ∈ s, q i * Real.log (p i / q i)
+      ≤ ∑ i ∈ s, ((p i / Z - q i) + q i * Real.log Z) := Finset.sum_le_sum hterm
+    _ = (∑ i ∈ s, p i) / Z - ∑ i ∈ s, q i + (∑ i ∈ s, q i) * Real.log Z := by
+        rw [Finset.sum_add_distrib, Finset.sum_sub_distrib, ← Finset.sum_div, ← Finset.sum_mul]
+    _ = Real.log Z := by
+        rw [hsum, ← hZdef, div_self hZ.ne']; ring
 end Genjax.Vi
